@@ -67,12 +67,32 @@ inductive Prim where
   | string
   deriving DecidableEq, Repr
 
+/-- `range=[l:r]`: bounds as decimal literals (`[]` = open end), inclusiveness of each side. -/
+structure Range where
+  leftInc : Bool
+  left : Str
+  right : Str
+  rightInc : Bool
+  deriving DecidableEq
+
 structure FMeta where
   name : Str            -- Go field name (exported)
   key : Str             -- name part of the json tag, `[]` = no tag
   optional : Bool       -- `,optional`
   embedded : Bool       -- anonymous struct field (no tag)
+  dflt : Str := []              -- `,default=…` (`[]` = none)
+  options : List Str := []      -- `,options=a|b`
+  range : Option Range := none  -- `,range=[1:5)`
+  envVar : Str := []            -- `,env=NAME`
+  inherit : Bool := false       -- `,inherit`
+  fromString : Bool := false    -- `,string`
   deriving DecidableEq
+
+/-- the tag has option segments beyond `,optional` (`parseKeyAndOptions` returns non-nil options either way). -/
+def FMeta.hasExt (f : FMeta) : Bool :=
+  f.dflt ≠ [] || f.options ≠ [] || f.range.isSome || f.envVar ≠ [] || f.inherit || f.fromString
+
+def FMeta.hasOpts (f : FMeta) : Bool := f.optional || f.hasExt
 
 def FMeta.tagKey (f : FMeta) : Str := if f.key = [] then f.name else f.key
 
@@ -296,29 +316,126 @@ def Ty.isPtr : Ty → Bool
 /-- the family has one-level pointers to primitives and structs only. -/
 def wrapPtr (t : Ty) (v : Val) : Val := if t.isPtr then .ptr v else v
 
-/-- `implicitValueRequiredStruct`: a struct value must be present iff some field (recursively through
-non-pointer struct fields) is neither optional nor a struct. -/
+/-- `implicitValueRequiredStruct`: a struct value must be present iff some field is required: without tag options a
+non-struct field (recursively through non-pointer struct fields), with tag options one that is neither optional nor
+has a default. -/
 def structRequired : Fields → Bool
   | .nil => false
   | .cons f t rest =>
-    (if f.optional then false else
+    (if f.hasOpts then !f.optional && f.dflt = [] else
       match t with
       | .struct fs => structRequired fs
       | _ => true) || structRequired rest
 
-/-! ### the unmarshaller (`canon` = `WithCanonicalKeyFunc(toLowerCase)` is set) -/
+/-! ### unmarshaller options and key lookup -/
 
-/-- `processFieldPrimitive` for a primitive kind and a non-null value. -/
-def fillPrim (p : Prim) (v : J) : R Val :=
+/-- `unmarshalOptions`: `WithCanonicalKeyFunc(strings.ToLower)`, `WithStringValues`, `WithFromArray`, `WithOpaqueKeys`. -/
+structure Opts where
+  canon : Bool := false
+  fromString : Bool := false
+  fromArray : Bool := false
+  opaqueKeys : Bool := false
+  /-- NOT an option of go-zero: selects the behaviour of the code before fixes/C17-float32-single-rounding.patch
+  (a float32 struct field was converted decimal → float64 → float32). -/
+  f32Pinned : Bool := false
+  /-- the process environment as seen by `proc.Env` (fields with `,env=NAME`); not an option either. -/
+  env : List (Str × Str) := []
+  deriving DecidableEq
+
+/-- `strings.FieldsFunc(key, c == '.')`: the non-empty segments. -/
+def splitDotsAux : List Char → Str → List Str
+  | [], cur => if cur = [] then [] else [cur.reverse]
+  | c :: cs, cur =>
+    if c = '.' then (if cur = [] then splitDotsAux cs [] else cur.reverse :: splitDotsAux cs [])
+    else splitDotsAux cs (c :: cur)
+
+def splitDots (s : Str) : List Str := splitDotsAux s []
+
+def JM.hasKey : JM → Str → Bool
+  | .nil, _ => false
+  | .cons k _ t, q => k = q || t.hasKey q
+
+def JM.append : JM → JM → JM
+  | .nil, b => b
+  | .cons k v t, b => .cons k v (t.append b)
+
+def JM.without (vm : JM) : JM → JM
+  | .nil => .nil
+  | .cons k v t => if vm.hasKey k then JM.without vm t else .cons k v (JM.without vm t)
+
+/-- `recursiveValuer.Value`: the nearest map that has the key wins; when it holds a map and an outer level holds a map
+under the same key, the outer entries that the inner map lacks are added (`vm[k] = v`; the mutation of the source
+map is not modelled). `cs`: the maps from the nearest outwards. -/
+def chainLookup : List JM → Str → Option J
+  | [], _ => none
+  | c :: rest, k =>
+    match c.get? k with
+    | none => chainLookup rest k
+    | some (.obj vm) =>
+      match chainLookup rest k with
+      | some (.obj pm) => some (.obj (vm.append (JM.without vm pm)))
+      | _ => some (.obj vm)
+    | some v => some v
+
+/-- `getValueWithChainedKeys` for the segments after the first: each step descends into a map and searches it and
+every enclosing level. -/
+def chainKeys : List JM → List Str → Option J
+  | _, [] => none
+  | cs, [k] => chainLookup cs k
+  | cs, k :: ks =>
+    match chainLookup cs k with
+    | some (.obj n) => chainKeys (n :: cs) ks
+    | _ => none
+
+/-- `getValue(createValuer(m, opts), key, opaque)`: `m` the map of the struct being filled, `ps` the maps of the
+enclosing structs (nearest first), `inherit` the field's `,inherit` option. -/
+def getValue (o : Opts) (inherit : Bool) (ps : List JM) (m : JM) (key : Str) : Option J :=
+  let first : Str → Option J := fun k => if inherit then chainLookup (m :: ps) k else m.get? k
+  if o.opaqueKeys then first key else
+  match splitDots key with
+  | [] => none
+  | [k] => first k
+  | k :: ks =>
+    match first k with
+    | some (.obj n) => chainKeys (n :: m :: ps) ks
+    | _ => none
+
+/-- `WithFromArray`: a field that is not a slice takes the first element of an array value (an empty array stays). -/
+def fromArrayAdj (isSlice : Bool) (v : J) : J :=
+  if isSlice then v else
+  match v with
+  | .arr (.cons h _) => h
+  | _ => v
+
+/-! ### the unmarshaller -/
+
+/-- `processFieldPrimitive` for a primitive kind and a non-null value. `two`: the pinned float32 conversion
+(through float64); the fixed code calls `strconv.ParseFloat(lit, 32)`. -/
+def fillPrim (two : Bool) (p : Prim) (v : J) : R Val :=
   match v with
   | .num lit =>
     match p with
     | .int _ | .uint _ => convFromString p lit
-    | .float bits => parseFloat bits true lit
+    | .float bits => parseFloat bits two lit
     | _ => .error .err
   | .bool b => if p = .bool then .ok (.bool b) else .error .err
   | .str s => if p = .string then .ok (.str s) else .error .err
   | _ => .error .err
+
+/-- `processNamedFieldWithValueFromString` + `fillPrimitive` (`WithStringValues`): the value must be a string or a
+`json.Number`; both are converted from their text. -/
+def fromStrPrim (p : Prim) (v : J) : R Val :=
+  match v with
+  | .num lit => convFromString p lit
+  | .str s => convFromString p s
+  | _ => .error .err
+
+def primField (o : Opts) (p : Prim) (v : J) : R Val :=
+  if o.fromString then fromStrPrim p v else fillPrim o.f32Pinned p v
+
+def Ty.isSlice : Ty → Bool
+  | .slice _ => true
+  | _ => false
 
 /-- element of a slice whose (dereferenced) element kind is primitive: `fillSliceValue`. -/
 def sliceElemPrim (p : Prim) (x : J) : R Val :=
@@ -336,40 +453,195 @@ def mapElemPrim (p : Prim) (x : J) : R Val :=
   | .num lit => convFromString p lit
   | _ => .error .err
 
+/-! ### tag options of a field: `options=`, `range=`, `default=`, `env=`, `,string` -/
+
+def envLookup (env : List (Str × Str)) (name : Str) : Str :=
+  match env.find? (fun p => p.1 = name) with
+  | some p => p.2
+  | none => []
+
+/-- compare two exact fractions `a ≤ b` / `a < b` (`Val.flt n d`, `d > 0`). -/
+def fracLe (an : Int) (ad : Nat) (bn : Int) (bd : Nat) : Bool := decide (an * bd ≤ bn * ad)
+def fracLt (an : Int) (ad : Nat) (bn : Int) (bd : Nat) : Bool := decide (an * bd < bn * ad)
+
+/-- `validateNumberRange(fv, nr)` on the exact value `n/d` of the float64. -/
+def inRange (rg : Range) (n : Int) (d : Nat) : R Unit :=
+  let lo : R (Option (Int × Nat)) := if rg.left = [] then .ok none else
+    match parseFloat 64 false rg.left with
+    | .ok (.flt a b) => .ok (some (a, b))
+    | _ => .error .unmodelled
+  let hi : R (Option (Int × Nat)) := if rg.right = [] then .ok none else
+    match parseFloat 64 false rg.right with
+    | .ok (.flt a b) => .ok (some (a, b))
+    | _ => .error .unmodelled
+  match lo, hi with
+  | .ok l, .ok h =>
+    let okL := match l with
+      | none => true
+      | some (a, b) => if rg.leftInc then fracLe a b n d else fracLt a b n d
+    let okH := match h with
+      | none => true
+      | some (a, b) => if rg.rightInc then fracLe n d a b else fracLt n d a b
+    if okL && okH then .ok () else .error .err
+  | .error e, _ => .error e
+  | _, .error e => .error e
+
+/-- `validateJsonNumberRange`: the literal must parse as float64 and lie in the range. -/
+def litInRange (rg : Option Range) (lit : Str) : R Unit :=
+  match rg with
+  | none => .ok ()
+  | some r => match parseFloat 64 false lit with
+    | .ok (.flt n d) => inRange r n d
+    | .ok _ => .error .unmodelled
+    | .error e => .error e
+
+/-- `validateValueRange` on a converted Go value: only numbers convert to float64 (`toFloat64`). Integers are compared
+exactly (the float64 rounding of integers beyond 2^53 is not modelled; the generated bounds are small). -/
+def valInRange (rg : Option Range) (v : Val) : R Unit :=
+  match rg with
+  | none => .ok ()
+  | some r => match v with
+    | .int i => inRange r i 1
+    | .flt n d => inRange r n d
+    | _ => .error .err
+
+def inOptions (opts : List Str) (s : Str) : R Unit :=
+  if opts = [] ∨ opts.contains s then .ok () else .error .err
+
+def boolRepr (b : Bool) : Str := if b then "true".toList else "false".toList
+
+/-- a present, non-null value for a field of primitive kind `p` whose tag has options (`f.hasExt`):
+`processNamedFieldWithValue` → `processNamedFieldWithValueFromString` / `processFieldPrimitive…`. -/
+def primFieldX (o : Opts) (f : FMeta) (p : Prim) (v : J) : R Val :=
+  if o.fromString || f.fromString then
+    match v with
+    | .str s =>
+      match inOptions f.options s with
+      | .error e => .error e
+      | .ok _ => match convFromString p s with
+        | .error e => .error e
+        | .ok x => match valInRange f.range x with
+          | .error e => .error e
+          | .ok _ => .ok x
+    | .num lit =>
+      match inOptions f.options lit with
+      | .error e => .error e
+      | .ok _ => match litInRange f.range lit with
+        | .error e => .error e
+        | .ok _ => convFromString p lit
+    | _ => .error .err
+  else
+    match v with
+    | .num lit =>
+      match litInRange f.range lit with
+      | .error e => .error e
+      | .ok _ => match inOptions f.options lit with
+        | .error e => .error e
+        | .ok _ => fillPrim o.f32Pinned p (.num lit)
+    | .str s =>
+      if p = .string then
+        match inOptions f.options s with
+        | .error e => .error e
+        | .ok _ => if f.range.isSome then .error .err else .ok (.str s)
+      else .error .err
+    | .bool b =>
+      if p = .bool then
+        match inOptions f.options (boolRepr b) with
+        | .error e => .error e
+        | .ok _ => if f.range.isSome then .error .err else .ok (.bool b)
+      else .error .err
+    | _ => .error .err
+
+/-- `strconv.ParseBool`. -/
+def parseBoolGo (s : Str) : R Val :=
+  if s ∈ ["1".toList, "t".toList, "T".toList, "TRUE".toList, "true".toList, "True".toList] then .ok (.bool true)
+  else if s ∈ ["0".toList, "f".toList, "F".toList, "FALSE".toList, "false".toList, "False".toList] then .ok (.bool false)
+  else .error .err
+
+/-- `processFieldWithEnvValue` (the switch is on the kind of the field type itself, pointers not dereferenced).
+`int64` (the kind of `time.Duration`) is outside the family: the code sends every int64 field through
+`time.ParseDuration`. -/
+def withEnv (o : Opts) (f : FMeta) (t : Ty) (ev : Str) : R Val :=
+  match inOptions f.options ev with
+  | .error e => .error e
+  | .ok _ =>
+    match t with
+    | .prim .bool => parseBoolGo ev
+    | .prim .string => .ok (.str ev)
+    | .prim p =>
+      match litInRange f.range ev with
+      | .error e => .error e
+      | .ok _ => fillPrim o.f32Pinned p (.num ev)
+    | .ptr (.prim p) =>
+      match litInRange f.range ev with
+      | .error e => .error e
+      | .ok _ =>
+        -- pinned code (before fixes/C17-float32-single-rounding.patch): the overflow check dereferences the
+        -- still-nil pointer field: `reflect.Value.Type` on the zero Value panics
+        if o.f32Pinned ∧ p = .float 32 ∧ (parseDec? ev).isSome then .error .panic
+        else (fillPrim o.f32Pinned p (.num ev)).map .ptr
+    | _ => .error .err
+
+/-- `processNamedFieldWithoutValue` with a `default=`: converted from its text, neither `options` nor `range` apply. -/
+def withDefault (t : Ty) (d : Str) : R Val :=
+  match t with
+  | .prim p => convFromString p d
+  | .ptr (.prim p) => (convFromString p d).map .ptr
+  | .slice _ => .error .unmodelled
+  | .ptr (.slice _) => .error .unmodelled
+  | _ => .error .err
+
+/-- a primitive or pointer-to-primitive type: its kind and whether it is the pointer. -/
+def Ty.prim? : Ty → Option (Prim × Bool)
+  | .prim p => some (p, false)
+  | .ptr (.prim p) => some (p, true)
+  | _ => none
+
 def VL.allZeroMarks : List Bool → Bool := fun l => l.all id
 
 mutual
 /-- `unmarshalWithFullName`: every field of the struct against the same map. -/
-def unmarshalStruct (canon : Bool) : Fields → JM → R VM
+def unmarshalStruct (o : Opts) (ps : List JM) : Fields → JM → R VM
   | .nil, _ => .ok .nil
   | .cons f t rest, m =>
     if f.embedded then
       -- processAnonymousFieldRequired: the embedded struct's fields read the same map
       match t with
       | .struct fs =>
-        match unmarshalStruct canon fs m with
+        match unmarshalStruct o ps fs m with
         | .error e => .error e
         | .ok inner =>
-          match unmarshalStruct canon rest m with
+          match unmarshalStruct o ps rest m with
           | .error e => .error e
           | .ok r => .ok (.cons f.name (.struct inner) r)
       | _ => .error .unmodelled
     else
-      let key := if canon then lower f.tagKey else f.tagKey
+      let key := if o.canon then lower f.tagKey else f.tagKey
+      let found := getValue o f.inherit ps m key
+      let found := if o.fromArray then found.map (fromArrayAdj t.isSlice) else found
       let fv : R Val :=
-        match m.get? key with
-        | none => withoutValue canon t f.optional
+        if f.envVar ≠ [] ∧ envLookup o.env f.envVar ≠ [] then withEnv o f t (envLookup o.env f.envVar) else
+        match found with
+        | none => if f.dflt ≠ [] then withDefault t f.dflt else withoutValue o t f.optional
         | some .null => if f.optional then .ok (zeroOf t) else .error .err
-        | some v => withValue canon t v
+        | some v =>
+          if f.hasExt then
+            match t.prim? with
+            | some (p, false) => primFieldX o f p v
+            | some (p, true) => (primFieldX o f p v).map .ptr
+            | none => withValue o (m :: ps) t v
+          else withValue o (m :: ps) t v
       match fv with
       | .error e => .error e
       | .ok x =>
-        match unmarshalStruct canon rest m with
+        match unmarshalStruct o ps rest m with
         | .error e => .error e
         | .ok r => .ok (.cons f.name x r)
 
+termination_by fs _ => (sizeOf fs, 0, 0)
+
 /-- `processNamedFieldWithoutValue` (no default, no env). -/
-def withoutValue (canon : Bool) : Ty → Bool → R Val
+def withoutValue (o : Opts) : Ty → Bool → R Val
   | t, true => .ok (zeroOf t)
   | .prim _, false => .error .err
   | .ptr (.prim _), false => .error .err
@@ -377,42 +649,46 @@ def withoutValue (canon : Bool) : Ty → Bool → R Val
   | .map _, false => .ok (.map .nil)               -- emptyMap into a map: an empty, non-nil map
   | .struct fs, false =>
     if structRequired fs then .error .err
-    else match unmarshalStruct canon fs .nil with
+    else match unmarshalStruct o [] fs .nil with
       | .ok m => .ok (.struct m)
       | .error e => .error e
   | .ptr (.struct fs), false =>
     if structRequired fs then .error .err
-    else match unmarshalStruct canon fs .nil with
+    else match unmarshalStruct o [] fs .nil with
       | .ok m => .ok (.ptr (.struct m))
       | .error e => .error e
   | .ptr _, false => .error .unmodelled
 
+termination_by t _ => (sizeOf t, 0, 0)
+
 /-- `processNamedFieldWithValue` for a non-null value. -/
-def withValue (canon : Bool) : Ty → J → R Val
-  | .prim p, v => fillPrim p v
-  | .ptr (.prim p), v => (fillPrim p v).map .ptr
-  | .struct fs, .obj m => (unmarshalStruct canon fs m).map .struct
+def withValue (o : Opts) (ps : List JM) : Ty → J → R Val
+  | .prim p, v => primField o p v
+  | .ptr (.prim p), v => (primField o p v).map .ptr
+  | .struct fs, .obj m => (unmarshalStruct o ps fs m).map .struct
   | .struct _, _ => .error .err
-  | .ptr (.struct fs), .obj m => (unmarshalStruct canon fs m).map fun x => .ptr (.struct x)
+  | .ptr (.struct fs), .obj m => (unmarshalStruct o ps fs m).map fun x => .ptr (.struct x)
   | .ptr (.struct _), _ => .error .err
-  | .slice t, .arr l => fillSlice canon t l
+  | .slice t, .arr l => fillSlice o t l
   | .slice _, .nilArr => .ok .nilSlice
   | .slice _, _ => .error .err                      -- a string would be parsed as JSON (not in the generators)
-  | .map t, .obj m => (genMap canon t m).map .map
+  | .map t, .obj m => (genMap o t m).map .map
   | .map _, _ => .error .err
   | .ptr _, _ => .error .unmodelled
 
+termination_by t _ => (sizeOf t, 0, 0)
+
 /-- `fillSlice` on a non-nil `[]any`: empty ⇒ empty slice; every element null ⇒ the field stays nil. -/
-def fillSlice (canon : Bool) (t : Ty) (l : JL) : R Val :=
-  match l with
-  | .nil => .ok (.slice .nil)
-  | _ =>
-    match sliceElems canon t l with
+def fillSlice (o : Opts) (t : Ty) (l : JL) : R Val :=
+  if l.isNil then .ok (.slice .nil) else
+    match sliceElems o t l with
     | .error e => .error e
     | .ok (vs, anyValid) => if anyValid then .ok (.slice vs) else .ok .nilSlice
 
+termination_by (sizeOf t, sizeOf l, 1)
+
 /-- elements of `fillSlice`, and whether any element was non-null. -/
-def sliceElems (canon : Bool) (t : Ty) : JL → R (VL × Bool)
+def sliceElems (o : Opts) (t : Ty) : JL → R (VL × Bool)
   | .nil => .ok (.nil, false)
   | .cons x rest =>
     let ev : R (Val × Bool) :=
@@ -421,56 +697,60 @@ def sliceElems (canon : Bool) (t : Ty) : JL → R (VL × Bool)
       | _ =>
         match t with
         | .struct fs => match x with
-          | .obj m => (unmarshalStruct canon fs m).map fun s => (.struct s, true)
+          | .obj m => (unmarshalStruct o [] fs m).map fun s => (.struct s, true)
           | _ => .error .err
         | .ptr (.struct fs) => match x with
-          | .obj m => (unmarshalStruct canon fs m).map fun s => (.ptr (.struct s), true)
+          | .obj m => (unmarshalStruct o [] fs m).map fun s => (.ptr (.struct s), true)
           | _ => .error .err
         | .slice t' => match x with
-          | .arr l' => (fillSlice canon t' l').map fun s => (s, true)
+          | .arr l' => (fillSlice o t' l').map fun s => (s, true)
           | .nilArr => .ok (.nilSlice, true)
           | _ => .error .err
         | .prim p => (sliceElemPrim p x).map fun s => (s, true)
         | .ptr (.prim p) => (sliceElemPrim p x).map fun s => (.ptr s, true)
         | .map t' => match x with
-          | .obj m => (genMap canon t' m).map fun s => (.map s, true)
+          | .obj m => (genMap o t' m).map fun s => (.map s, true)
           | _ => .error .err
         | .ptr _ => .error .unmodelled
     match ev with
     | .error e => .error e
     | .ok (v, valid) =>
-      match sliceElems canon t rest with
+      match sliceElems o t rest with
       | .error e => .error e
       | .ok (vs, anyValid) => .ok (.cons v vs, valid || anyValid)
 
+termination_by l => (sizeOf t, sizeOf l, 0)
+
 /-- `generateMap` for `map[string]T` from a `map[string]any`. -/
-def genMap (canon : Bool) (t : Ty) : JM → R VM
+def genMap (o : Opts) (t : Ty) : JM → R VM
   | .nil => .ok .nil
   | .cons k x rest =>
     let ev : R Val :=
       match t with
       | .slice t' => match x with
-        | .arr l' => fillSlice canon t' l'
+        | .arr l' => fillSlice o t' l'
         | .nilArr => .ok .nilSlice
-        | .null => .error .panic          -- reflect.Value.Type on the zero Value
+        | .null => .error .err            -- fillSlice: `reflect.ValueOf(nil).Kind() != reflect.Slice`
         | _ => .error .err
       | .struct fs => match x with
-        | .obj m => (unmarshalStruct canon fs m).map .struct
+        | .obj m => (unmarshalStruct o [] fs m).map .struct
         | _ => .error .err
       | .ptr (.struct fs) => match x with
-        | .obj m => (unmarshalStruct canon fs m).map fun s => .ptr (.struct s)
+        | .obj m => (unmarshalStruct o [] fs m).map fun s => .ptr (.struct s)
         | _ => .error .err
       | .map t' => match x with
-        | .obj m => (genMap canon t' m).map .map
+        | .obj m => (genMap o t' m).map .map
         | _ => .error .err
       | .prim p => mapElemPrim p x
       | .ptr _ => .error .unmodelled
     match ev with
     | .error e => .error e
     | .ok v =>
-      match genMap canon t rest with
+      match genMap o t rest with
       | .error e => .error e
       | .ok vs => .ok (.cons k v vs)
+termination_by m => (sizeOf t, sizeOf m, 0)
+
 end
 
 /-! ### `buildFieldsInfo` and `toLowerCaseKeyMap` -/
@@ -611,21 +891,31 @@ end
 
 /-! ### the loaders -/
 
-/-- `conf.LoadFromJsonBytes` after `jsonx.Unmarshal(content, &m)` gave the tree `j` (`m map[string]any`). -/
-def loadTreeWith (info : Info) (fs : Fields) (j : J) : R Val :=
+/-- the options of `conf.LoadFromJsonBytes`: `WithCanonicalKeyFunc(toLowerCase)` only. -/
+def confOpts : Opts := { canon := true }
+
+/-- `conf.LoadFromJsonBytes` after `jsonx.Unmarshal(content, &m)` gave the tree `j` (`m map[string]any`).
+`o` = `confOpts` plus what is not an option (the process environment read by `,env=` fields). -/
+def loadTreeWithO (o : Opts) (info : Info) (fs : Fields) (j : J) : R Val :=
   if infoConflict (.struct fs) then .error .err else
   match j with
-  | .obj m => (unmarshalStruct true fs (lowerMap info m)).map .struct
-  | .null => (unmarshalStruct true fs .nil).map .struct
+  | .obj m => (unmarshalStruct o [] fs (lowerMap info m)).map .struct
+  | .null => (unmarshalStruct o [] fs .nil).map .struct
   | _ => .error .err
 
-def loadTree (fs : Fields) (j : J) : R Val := loadTreeWith (infoOf (.struct fs)) fs j
+def loadTreeWith (info : Info) (fs : Fields) (j : J) : R Val := loadTreeWithO confOpts info fs j
+
+def loadTreeO (o : Opts) (fs : Fields) (j : J) : R Val := loadTreeWithO o (infoOf (.struct fs)) fs j
+
+def loadTree (fs : Fields) (j : J) : R Val := loadTreeO confOpts fs j
 
 /-- `mapping.UnmarshalJsonBytes` (`var m any`, default unmarshaller: exact keys). -/
-def unmarshalJson (fs : Fields) (j : J) : R Val :=
+def unmarshalWith (o : Opts) (fs : Fields) (j : J) : R Val :=
   match j with
-  | .obj m => (unmarshalStruct false fs m).map .struct
+  | .obj m => (unmarshalStruct o [] fs m).map .struct
   | _ => .error .err
+
+def unmarshalJson (fs : Fields) (j : J) : R Val := unmarshalWith {} fs j
 
 /-! ### front ends: the value spaces of yaml.v2 and go-toml, and the glue to the generic tree -/
 
@@ -716,6 +1006,68 @@ end
 def loadYaml (fs : Fields) (y : Y) : R Val := loadTree fs (yamlGlue y)
 def loadToml (fs : Fields) (t : T) : R Val := loadTree fs (tomlGlue t)
 def loadJson (fs : Fields) (j : J) : R Val := loadTree fs j
+def loadYamlO (o : Opts) (fs : Fields) (y : Y) : R Val := loadTreeO o fs (yamlGlue y)
+def loadTomlO (o : Opts) (fs : Fields) (t : T) : R Val := loadTreeO o fs (tomlGlue t)
+def loadJsonO (o : Opts) (fs : Fields) (j : J) : R Val := loadTreeO o fs j
+
+/-- `mapping.UnmarshalYamlBytes / UnmarshalYamlReader` and `mapping.UnmarshalTomlBytes / UnmarshalTomlReader`:
+the front end, then `UnmarshalJsonBytes` with the SAME options. -/
+def unmarshalYaml (o : Opts) (fs : Fields) (y : Y) : R Val := unmarshalWith o fs (yamlGlue y)
+def unmarshalToml (o : Opts) (fs : Fields) (t : T) : R Val := unmarshalWith o fs (tomlGlue t)
+
+/-! ### Go maps have no order: the loader on a document with keys that collide up to case
+
+`toLowerCaseKeyMap` (with fixes/C17-case-collision-deterministic.patch) walks the keys of every map in ascending order
+and a later key overwrites an earlier one with the same lower-cased name.  On association lists with first-match
+lookup this is: sort the entries of every object in DEscending key order, then `lowerMap`. -/
+
+def strLtM : Str → Str → Bool
+  | [], [] => false
+  | [], _ :: _ => true
+  | _ :: _, [] => false
+  | a :: as, b :: bs => if a.toNat < b.toNat then true else if a.toNat > b.toNat then false else strLtM as bs
+
+def JM.insertDesc (k : Str) (v : J) : JM → JM
+  | .nil => .cons k v .nil
+  | .cons k' v' t => if strLtM k k' then .cons k' v' (JM.insertDesc k v t) else .cons k v (.cons k' v' t)
+
+mutual
+def sortDoc : J → J
+  | .arr l => .arr (sortDocList l)
+  | .obj m => .obj (sortDocMap m)
+  | v => v
+def sortDocList : JL → JL
+  | .nil => .nil
+  | .cons h t => .cons (sortDoc h) (sortDocList t)
+def sortDocMap : JM → JM
+  | .nil => .nil
+  | .cons k v t => JM.insertDesc k (sortDoc v) (sortDocMap t)
+end
+
+def loadJsonDet (o : Opts) (fs : Fields) (j : J) : R Val := loadJsonO o fs (sortDoc j)
+def loadYamlDet (o : Opts) (fs : Fields) (y : Y) : R Val := loadJsonO o fs (sortDoc (yamlGlue y))
+def loadTomlDet (o : Opts) (fs : Fields) (t : T) : R Val := loadJsonO o fs (sortDoc (tomlGlue t))
+
+/-- `conf.FillDefault`: `WithDefault()` on an empty map — every field takes its environment value, else its default,
+else a non-pointer struct is filled recursively, anything else stays zero. -/
+def fillDefaults (o : Opts) : Fields → R VM
+  | .nil => .ok .nil
+  | .cons f t rest =>
+    let fv : R Val :=
+      if f.embedded then
+        match t with
+        | .struct fs => (fillDefaults o fs).map .struct
+        | _ => .error .unmodelled
+      else if f.envVar ≠ [] ∧ envLookup o.env f.envVar ≠ [] then withEnv o f t (envLookup o.env f.envVar)
+      else if f.dflt ≠ [] then withDefault t f.dflt
+      else match t with
+        | .struct fs => (fillDefaults o fs).map .struct
+        | _ => .ok (zeroOf t)
+    match fv with
+    | .error e => .error e
+    | .ok x => match fillDefaults o rest with
+      | .error e => .error e
+      | .ok r => .ok (.cons f.name x r)
 
 /-! ### `conf.Load`: which loader, and whether the environment is expanded -/
 
